@@ -37,7 +37,7 @@ RULE = ("full product of matrices x regularisers x starts x step choices x optio
 ASSUMPTIONS = ["reference optimum accepted only with duality gap <= 1e-10", "Fejer monotonicity uses the proximal-point metric with the cross term (DESIGN.md section 4)"]
 CHUNK = 8
 
-MATS = ["I2", "diag", "real32", "cplx32", "worst6"]
+MATS = ["I2", "diag", "real32", "cplx32", "cplx32m", "worst6"]   # cplx32m: same operator, data whose l1 minimiser has a MID-SIZED complex entry
 REGS = [None, "l1", "l2sq", "box", "boxfar"]
 LAM = {"l1": 0.3, "l2sq": 0.5, "box": (-0.25, 0.4), "boxfar": (0.0, 1e12)}   # boxfar: non-negativity with a far, never active upper bound
 
@@ -53,7 +53,7 @@ def bounds(tier):
 
 
 def _is_cplx(name):
-    return name == "cplx32" or (name.startswith("rand") and name[6] == "c")
+    return name in ("cplx32", "cplx32m") or (name.startswith("rand") and name[6] == "c")
 
 
 def matrix(name, seed):
@@ -64,7 +64,7 @@ def matrix(name, seed):
         return np.diag([1.0, 10.0])
     if name == "real32":
         return r.standard_normal((3, 2))
-    if name == "cplx32":
+    if name in ("cplx32", "cplx32m"):
         return r.standard_normal((3, 2)) + 1j * r.standard_normal((3, 2))
     if name.startswith("rand"):        # thorough tier: "rand<m><n><r|c><k>" - k-th random m x n real/complex matrix
         m_, n_, kind_, k_ = int(name[4]), int(name[5]), name[6], int(name[7:])
@@ -84,6 +84,8 @@ def problem(case, seed):
     m, n = A.shape
     r = np.random.default_rng(5 + seed)
     xt = np.array(([1.0, 0.05, -0.6, 0.0, 0.3, -0.02] * (n // 6 + 1))[:n], dtype=complex)
+    if case["A"] == "cplx32m":
+        xt = np.array([0.8, 0.09], dtype=complex)     # second entry survives the shrinkage with a magnitude between t and sqrt(t)
     if _is_cplx(case["A"]):
         xt = xt * (1 + 0.5j)
     y = A @ xt + 0.05 * (r.standard_normal(m) + (1j * r.standard_normal(m) if _is_cplx(case["A"]) else 0))
